@@ -1,6 +1,8 @@
 ---- MODULE MC_Refs ----
 EXTENDS Refs
-KAll == {"param", "paramw", "bind1", "meth", "bind2", "rx", "nested"}
+KAll == {"param", "paramw", "bind1", "meth", "bind2", "rx", "nested", "const"}
+KNoK == KAll \ {"const"}
+KClamp == {"param", "bind1", "rx", "meth"}
 KBasic == {"param", "bind1", "nested"}
 AUpd == {"source", "updctx", "ref"}
 AAll == {"source", "ref", "plain", "updctx"}
